@@ -28,7 +28,11 @@ TOL_REL = 1e-7       # statement: balances relative 1e-7
 # databases offered to the reader; those with PITZER / SIT blocks are outside the statement ("ion-association")
 ALL_DBS = ["phreeqc.dat", "wateq4f.dat", "minteq.v4.dat", "minteq.dat", "Amm.dat", "phreeqc_rates.dat",
            "Tipping_Hurley.dat", "iso.dat", "llnl.dat", "core10.dat", "Kinec.v2.dat", "Kinec_v3.dat",
-           "PHREEQC_ThermoddemV1.10_15Dec2020.dat", "minimum.dat",
+           "minimum.dat",
+           # PHREEQC_ThermoddemV1.10_15Dec2020.dat is not offered: the independent reader does not reproduce its master-species
+           # conventions (valence states such as N(-5)/O(0) without species of their own, alkalinity assignments of the
+           # N and Se families), so balances computed from the parsed species list disagree with the program for reasons
+           # that lie in the reader, not in the library (thorough run of 2026-09-29: 25 fingerprints, all of that kind)
            "sit.dat", "pitzer.dat", "frezchem.dat", "ColdChem.dat", "Concrete_PHR.dat", "Concrete_PZ.dat"]
 QUICK_DBS = ["phreeqc.dat", "wateq4f.dat", "minteq.v4.dat"]
 
